@@ -279,6 +279,9 @@ func specsFor(ws []int, maxDefers int, panicking bool) []Spec {
 			base := Spec{Ws: ws, Defers: ds, DeferLevel: dl}
 			specs = append(specs, base)
 			for f := failThrow; f < numFail; f++ {
+				if f == failCloseClosed && !failingDeferred(ds) {
+					continue
+				}
 				for lvl := 0; lvl <= depth; lvl++ {
 					for pos := 0; pos < positions(base, lvl); pos++ {
 						sp := base
@@ -455,7 +458,7 @@ func coverage(c *common.Ctx, r *common.Result) map[string]interface{} {
 		"resolutions_accepted":             r.SetMembers("resolutions_accepted"),
 		"wrappers":                         len(wrappers),
 		"explanation": "spines p;D*;W1[p;D*;W2[p;D*;W3[p;D*];p];p];p over 12 construct positions (try body with/without catch variable and finally, catch block, finally block after success and after a caught error, two function forms, two loops, branch, deferred callee), " +
-			"D* = 0..n defer statements of 4 kinds (probe, closure with an argument and a captured variable, callee that throws, callee that itself defers) in the statement list of one level, one failure point (throw / undefined name / return / failing host call) at every statement position of every level; " +
+			"D* = 0..n defer statements of 4 kinds (probe, closure with an argument and a captured variable, callee that throws, callee that itself defers) in the statement list of one level, one failure point (throw / undefined name / return / host function that panics / close of a closed channel) at every statement position of every level; " +
 			"expected trace/result/error from lib/ir refinterp; where C09 is silent (finally after a failed catch, finally when the try body is left by return, return inside a try body) every resolution is accepted, one per run",
 	}
 	for k, v := range r.Counts {
@@ -511,7 +514,7 @@ func init() {
 		ID: "C09", Level: "exploration", Run: run, Coverage: coverage, Replay: replay,
 		Assumptions: []string{
 			"programs are spines over the 12 construct positions of props/c09/gen.go, depth <= 2 with 0-2 defer statements (quick); depth <= 2 with 0-3 and depth 3 with 0-1 defer statements (thorough); all defer statements of a program sit in one statement list; at most one failure point",
-			"error messages are not compared, except that the error bound to a catch variable / received by the host for `throw v` must contain the text of v; when several deferred calls fail any of their errors may surface",
+			"error messages are not compared, except where they identify WHICH failure surfaced: for `throw v` the text of v, for the harness's own panicking host function boom(k) its text \"boom k\", for close of a closed channel the Go runtime's text; other runtime errors match any text; when several deferred calls fail any of their errors may surface",
 			"C09 does not say whether finally runs after a catch block that itself fails, whether finally runs when return leaves a try body, nor what a return inside a try body does (C08 owns that): every such resolution is accepted, one per run",
 			"the value of a run is compared only when produced by return or by the final expression statement",
 			"break/continue are not used as failure points (C08)",
